@@ -248,7 +248,7 @@ pub fn gen_browse_world(prop: &str, flavor: Flavor, seed: u64, index: u64, tier:
             instances.push(json!({"peer": p, "instance": ir.inst.dotted(), "host": ir.host.dotted(), "ty": ty}));
         }
         if answers_queries {
-            peer.responder = Some(ResponderCfg { records: all_recs, delay_ms: 20 + rng.below(100), honor_known_answers: rng.bool(), additionals: rng.bool(), active: true, max_answers: None, skip_first: 0 });
+            peer.responder = Some(ResponderCfg { records: all_recs, delay_ms: 20 + rng.below(100), honor_known_answers: rng.bool(), additionals: rng.bool(), active: true, max_answers: None, skip_first: 0, conflict_probes: 0 });
         }
         s.peers.push(peer);
     }
